@@ -14,6 +14,9 @@ class OpContract:
         #: spec=<spec method run when it fires>, inv=<extra invariant over the action's closure scope and `due`>, index=<k-th
         #: timer set in the creating step>)
         self.timed = timed or bool(timers)
+        #: the operator creates subjects of its own (windows, groups) and hands their observable faces downstream; calls on
+        #: them are events of their own channels, compared with the spec's in order (set per contract)
+        self.subjects = False
         #: re-entrancy discipline: the coupling invariant must also hold at every element handed downstream (set per contract)
         self.reentrant = True
         #: the source is only subscribed later (by a timer), not by subscribe itself
